@@ -25,7 +25,9 @@
 #include <BayesFilters/FilteringAlgorithm.h>
 
 #include <atomic>
+#include <cerrno>
 #include <cstdio>
+#include <functional>
 #include <cstdlib>
 #include <cstring>
 #include <iostream>
@@ -46,7 +48,21 @@
 
 namespace {
 
-thread_local bool tl_filter = false;       // set by the probe on the filtering thread
+thread_local bool tl_filter = false;       // set by the probe on the filtering thread (first schedule point)
+thread_local bool tl_ctl = false;          // set on the scheduler's own threads (controller side)
+std::atomic<bool> g_wait_returned{false};  // wait() has returned to the controller
+std::atomic<bool> g_ended{false};          // the filtering thread passed its last schedule point
+std::atomic<bool> g_late_logged{false};
+// the filtering thread's condition wait, implemented here so that a woken thread can be held
+// before it re-acquires the mutex (place `v`)
+std::atomic<bool> g_w_active{false};
+pthread_cond_t* g_w_cond = nullptr;
+sem_t g_w_sem;
+std::atomic<bool> g_fail_create{false};    // the next pthread_create fails (boot() cannot start the thread)
+std::atomic<bool> g_split{false};          // hold the controller at schedule point 6 (between reboot()'s stores)
+std::atomic<bool> g_at6{false};
+sem_t g_ctl_arrive, g_ctl_go;
+std::atomic<int> g_wakes{0};               // notifications that reached the waiting thread
 std::atomic<bool> g_free{false};           // parking disabled (free run)
 std::atomic<bool> g_free_op{false};        // the `free` operation (logs the end mark)
 std::atomic<bool> g_rc{false};             // value run_condition() returns when released
@@ -55,6 +71,16 @@ std::atomic<int> g_place{'?'};
 std::atomic<int> g_signals{0};             // notifications sent by threads other than the filtering thread
 std::atomic<bool> g_in_wait{false};
 sem_t g_arrive, g_go;
+pthread_mutex_t g_q_mtx = PTHREAD_MUTEX_INITIALIZER;
+std::vector<int> g_q;                      // places reached, in order (one per post of g_arrive)
+size_t g_q_head = 0;
+
+void post_arrival(int place) {
+    pthread_mutex_lock(&g_q_mtx);
+    g_q.push_back(place);
+    pthread_mutex_unlock(&g_q_mtx);
+    sem_post(&g_arrive);
+}
 pthread_mutex_t g_log_mtx = PTHREAD_MUTEX_INITIALIZER;
 std::vector<std::string> g_log;            // events (filtering thread) and marks (controller)
 
@@ -67,8 +93,7 @@ void logev(const std::string& s) {
 // the filtering thread reached a parking place
 void arrive(int place) {
     if (g_free.load()) return;
-    g_place.store(place);
-    sem_post(&g_arrive);
+    post_arrival(place);
     while (sem_wait(&g_go) != 0) {}
 }
 
@@ -84,27 +109,57 @@ void* next_sym(const char* name) {
 
 }  // namespace
 
+void wake_waiter(pthread_cond_t* c) {
+    if (g_w_active.load() && (c == nullptr || c == g_w_cond)) {
+        bool exp = true;
+        if (g_w_active.compare_exchange_strong(exp, false)) { g_wakes.fetch_add(1); sem_post(&g_w_sem); }
+    }
+}
+
 extern "C" int pthread_cond_wait(pthread_cond_t* c, pthread_mutex_t* m) {
     static cw_t real = (cw_t)next_sym("pthread_cond_wait");
-    if (tl_filter) { arrive('k'); g_in_wait.store(true); }
-    int r = real(c, m);
-    if (tl_filter) g_in_wait.store(false);
-    return r;
+    if (!tl_filter || g_free_op.load()) return real(c, m);
+    // scheduled run: semaphore-based wait with the standard semantics (registration under the mutex)
+    arrive('k');                            // predicate evaluated false, mutex held
+    g_w_cond = c;
+    g_w_active.store(true);
+    pthread_mutex_unlock(m);
+    g_in_wait.store(true);
+    if (!g_free.load()) post_arrival('w');   // parked, mutex released
+    while (sem_wait(&g_w_sem) != 0) {}
+    g_in_wait.store(false);
+    arrive('v');                            // woken, mutex not yet re-acquired
+    pthread_mutex_lock(m);
+    return 0;
+}
+
+typedef int (*pc_t)(pthread_t*, const pthread_attr_t*, void* (*)(void*), void*);
+extern "C" int pthread_create(pthread_t* t, const pthread_attr_t* a, void* (*fn)(void*), void* arg) {
+    static pc_t real = (pc_t)dlsym(RTLD_NEXT, "pthread_create");
+    if (g_fail_create.exchange(false)) return EAGAIN;
+    return real(t, a, fn, arg);
 }
 
 extern "C" int pthread_cond_signal(pthread_cond_t* c) {
     static cs_t real = (cs_t)next_sym("pthread_cond_signal");
-    if (!tl_filter) g_signals.fetch_add(1);
+    if (!tl_filter) { g_signals.fetch_add(1); wake_waiter(c); }
     return real(c);
 }
 
 extern "C" int pthread_cond_broadcast(pthread_cond_t* c) {
     static cs_t real = (cs_t)next_sym("pthread_cond_broadcast");
-    if (!tl_filter) g_signals.fetch_add(1);
+    if (!tl_filter) { g_signals.fetch_add(1); wake_waiter(c); }
     return real(c);
 }
 
 namespace {
+
+// a callback made by a thread of the controller side, or after wait() has returned, is recorded
+bool foreign(const char* what) {
+    if (tl_ctl) { logev(std::string("X") + what); return true; }
+    if (g_wait_returned.load() && !g_late_logged.exchange(true)) logev("A");
+    return false;
+}
 
 class Probe : public bfl::FilteringAlgorithm {
 public:
@@ -112,25 +167,33 @@ public:
 
 protected:
     bool initialization_step() override {
-        tl_filter = true;
+        if (foreign("I")) return true;
         logev("I");
         arrive('i');
         return true;
     }
     void filtering_step() override {
+        if (foreign("S")) return;
         logev("S" + std::to_string(step_number()));
         arrive('s');
         logev("E" + std::to_string(step_number()));
     }
     bool run_condition() override {
+        if (foreign("C")) return false;
         arrive('c');
         if (g_free.load()) return g_true_calls.fetch_sub(1) > 0;
         return g_rc.load();
     }
     void verif_schedule_point(int p) override {
+        if (p == 6) {                       // inside reboot(), on the controller's thread, mutex held
+            if (g_split.exchange(false)) { g_at6.store(true); sem_post(&g_ctl_arrive); while (sem_wait(&g_ctl_go) != 0) {} }
+            return;
+        }
+        if (foreign("P")) return;
         tl_filter = true;
         if (p == 5) {                       // after the final store: the thread ends, nothing to hold
-            if (!g_free.load()) { g_place.store('f'); sem_post(&g_arrive); }
+            g_ended.store(true);
+            if (!g_free.load()) post_arrival('f');
             return;
         }
         if (p == 4 && g_free_op.load()) logev("P");   // free run: the final store has not happened yet
@@ -138,7 +201,13 @@ protected:
     }
 };
 
-void wait_arrival() { while (sem_wait(&g_arrive) != 0) {} }
+int wait_arrival() {
+    while (sem_wait(&g_arrive) != 0) {}
+    pthread_mutex_lock(&g_q_mtx);
+    int p = g_q[g_q_head++];
+    pthread_mutex_unlock(&g_q_mtx);
+    return p;
+}
 
 void emit(int fd, const std::string& w) {
     std::string s = w + " ";
@@ -176,80 +245,132 @@ const long GRACE_US = 15000;
 void run_life(int fd, const std::vector<std::string>& toks) {
     sem_init(&g_arrive, 0, 0);
     sem_init(&g_go, 0, 0);
+    sem_init(&g_w_sem, 0, 0);
+    sem_init(&g_ctl_arrive, 0, 0);
+    sem_init(&g_ctl_go, 0, 0);
+    std::thread* rb = nullptr;              // reboot() held between its two stores
+    bool released_into_mutex = false;       // the thread was let go towards the mutex rb holds
+    int rb_w0 = 0;
+    tl_ctl = true;
     Probe* f = new Probe();                 // never destroyed: the child leaves with _exit
     size_t seen = 0;
     int cur;                                // parking place of the filtering thread
-    bool joined = false; (void)joined;
     std::thread* helper = nullptr;          // asynchronous command not yet completed
     std::atomic<bool>* helper_done = nullptr;
-    int helper_sig0 = 0;
+    int helper_w0 = 0;
 
-    if (!f->boot()) { emit(fd, "boot-failed"); return; }
-    wait_arrival();
-    cur = g_place.load();
+    bool fail_boot = !toks.empty() && toks[0] == "F";
+    if (fail_boot) g_fail_create.store(true);
+    bool booted = f->boot();
+    if (fail_boot) {
+        if (booted) { emit(fd, "F:booted"); return; }
+        cur = 'f'; g_ended.store(true);     // there is no filtering thread
+    } else {
+        if (!booted) { emit(fd, "boot-failed"); return; }
+        cur = wait_arrival();
+    }
 
     auto observe = [&](const std::string& tok, const char* mark) {
         std::ostringstream o;
         o << tok << ':' << take_events(seen) << ':' << (char)cur << ':' << (f->is_running() ? 1 : 0) << ':' << f->step_number() << mark;
         emit(fd, o.str());
     };
-    // after a command: a notification sent while the thread is inside the wait wakes it
-    auto after_cmd = [&](int sig) {
-        if (cur == 'w' && sig > 0) { wait_arrival(); cur = g_place.load(); }
+    // a notification that reached the thread inside the wait is followed by its arrival at `v`
+    auto after_cmd = [&](int w0) {
+        if (cur == 'w' && g_wakes.load() > w0) { cur = wait_arrival(); }
     };
-    auto finish_helper = [&]() -> int {
+    auto finish_helper = [&]() {
         helper->join();
         delete helper; helper = nullptr;
         delete helper_done; helper_done = nullptr;
-        return g_signals.load() - helper_sig0;
+    };
+    auto start_helper = [&](std::function<void()> fn) {
+        helper_done = new std::atomic<bool>(false);
+        std::atomic<bool>* flag = helper_done;
+        helper = new std::thread([fn, flag] { tl_ctl = true; fn(); flag->store(true); });
+        long waited = 0;
+        while (!helper_done->load() && waited < GRACE_US) { sleep_us(250); waited += 250; }
+        return helper_done->load();
     };
 
     for (const std::string& tok : toks) {
         char c = tok[0];
-        if (c == 'r' || c == 's' || c == 'b' || c == 't') {
-            int s0 = g_signals.load();
+        if (tok == "F") {
+            observe(tok, "");
+        } else if (tok == "b1") {                  // reboot() up to the point between its two stores
+            if (rb || helper) { emit(fd, "bad-schedule"); return; }
+            rb_w0 = g_wakes.load();
+            g_split.store(true);
+            g_at6.store(false);
+            rb = new std::thread([f] { tl_ctl = true; f->reboot(); sem_post(&g_ctl_arrive); });
+            while (sem_wait(&g_ctl_arrive) != 0) {}
+            if (!g_at6.load()) { rb->join(); emit(fd, "b1:nohook"); return; }
+            observe(tok, "");
+        } else if (tok == "b2") {           // second store, notification, unlock
+            if (!rb) { emit(fd, "bad-schedule"); return; }
+            sem_post(&g_ctl_go);
+            while (sem_wait(&g_ctl_arrive) != 0) {}
+            rb->join(); delete rb; rb = nullptr;
+            if (released_into_mutex) { cur = wait_arrival(); released_into_mutex = false; }
+            else after_cmd(rb_w0);
+            observe(tok, "");
+        } else if (c == 'r' || c == 's' || c == 'b' || c == 't') {
+            int w0 = g_wakes.load();
             do_cmd(*f, c);
-            after_cmd(g_signals.load() - s0);
+            after_cmd(w0);
             observe(tok, "");
         } else if (c == 'R' || c == 'S' || c == 'B' || c == 'T') {
             if (helper) { emit(fd, "bad-schedule"); return; }
-            helper_sig0 = g_signals.load();
-            helper_done = new std::atomic<bool>(false);
-            std::atomic<bool>* flag = helper_done;
+            helper_w0 = g_wakes.load();
             char lc = (char)(c - 'A' + 'a');
-            helper = new std::thread([f, lc, flag] { do_cmd(*f, lc); flag->store(true); });
-            long waited = 0;
-            while (!helper_done->load() && waited < GRACE_US) { sleep_us(250); waited += 250; }
-            if (helper_done->load()) {      // completed although the thread holds the mutex
-                int sig = finish_helper();
-                after_cmd(sig);
+            if (start_helper([f, lc] { do_cmd(*f, lc); })) {   // completed although the thread holds the mutex
+                finish_helper();
+                after_cmd(helper_w0);
                 observe(tok, ":n");
             } else {
                 observe(tok, ":d");
             }
+        } else if (c == 'u') {                                  // spurious wake-up
+            int w0 = g_wakes.load();
+            if (cur == 'w') wake_waiter(nullptr);
+            after_cmd(w0);
+            observe(tok, "");
         } else if (c == 'a') {
             g_rc.store(tok.size() > 1 && tok[1] == '1');
             if (cur == 'k') {
-                sem_post(&g_go);            // into the real wait
-                int sig = 0;
-                if (helper) sig = finish_helper();   // completes once the thread has released the mutex
-                if (sig > 0) { wait_arrival(); cur = g_place.load(); }
-                else { f->verif_lock_unlock(); cur = 'w'; }
+                sem_post(&g_go);            // registers as waiter, releases the mutex, parks
+                cur = wait_arrival();
+                if (helper) { finish_helper(); after_cmd(helper_w0); }   // completes once the mutex is free
+                else if (cur == 'w') f->verif_lock_unlock();
+            } else if (rb && (cur == '1' || cur == 'v')) {
+                // the next thing the thread does is lock the mutex reboot() holds: it moves on at b2
+                if (!released_into_mutex) { sem_post(&g_go); released_into_mutex = true; }
             } else if (cur != 'w' && cur != 'f') {
                 sem_post(&g_go);
-                wait_arrival();
-                cur = g_place.load();
+                cur = wait_arrival();
             }
             observe(tok, "");
         } else if (c == 'j') {
             bool held = (cur != 'w' && cur != 'f');
+            bool ok = true;
             g_true_calls.store(tok == "jt" ? (1L << 50) : 0);   // jt: run_condition() stays true
-            g_free.store(true);
-            if (held) sem_post(&g_go);
-            if (helper) finish_helper();
-            bool ok = f->wait();            // a second wait() finds the thread not joinable and returns true
-            joined = true;
+            if (tok == "jw" && !helper) {   // (with a deferred command pending, jw is carried out as j)
+                // wait() is called while the thread is still held: it must not return before the thread has ended
+                bool* okp = &ok;
+                bool early = start_helper([f, okp] { *okp = f->wait(); });
+                if (early && !g_ended.load()) { finish_helper(); emit(fd, "jw:early"); return; }
+                g_free.store(true);
+                if (held) sem_post(&g_go);
+                finish_helper();
+            } else {
+                g_free.store(true);
+                if (held) sem_post(&g_go);
+                if (helper) finish_helper();
+                ok = f->wait();             // a second wait() finds the thread not joinable and returns true
+            }
+            g_wait_returned.store(true);
             if (!ok) { emit(fd, "wait-false"); return; }
+            if (!g_ended.load()) { emit(fd, tok + ":alive"); return; }   // returned although the thread has not ended
             cur = 'f';
             observe(tok, "");
         } else {
@@ -262,6 +383,7 @@ void run_life(int fd, const std::vector<std::string>& toks) {
 
 // ---------------------------------------------------------------------------- free run (child)
 void run_free(int fd, const std::vector<std::string>& toks0) {
+    tl_ctl = true;
     sem_init(&g_arrive, 0, 0);
     sem_init(&g_go, 0, 0);
     g_free.store(true);
@@ -284,6 +406,7 @@ void run_free(int fd, const std::vector<std::string>& toks0) {
             sleep_us(std::atol(tok.c_str() + 1));
         } else if (c == 'j') {
             f->wait();
+            g_wait_returned.store(true);
             logev("J:" + std::to_string(f->is_running() ? 1 : 0) + ":" + std::to_string(f->step_number()));
         } else { emit(fd, "bad-token"); return; }
     }
